@@ -130,6 +130,8 @@ fn size_tag(n: u64) -> &'static str {
 
 const POOL: &[&str] = &[
     "a.txt", "sub/b.txt", "sub/deep/c.txt", "sp ace.txt", "only_in_root.txt", "new.txt", "sub/new2.txt", "nd/x/y.txt", "ünï.txt", "peer.txt",
+    // legal Unix names that path-normalising code may treat specially
+    "notes\\draft.txt", "sub/b\\c.txt", "dot..dot.txt",
 ];
 
 fn initial_model() -> WsModel {
@@ -139,6 +141,7 @@ fn initial_model() -> WsModel {
     m.put("sub/deep/c.txt", b"inside c\n".to_vec());
     m.put("sp ace.txt", b"inside space\n".to_vec());
     m.put("only_in_root.txt", b"inside only\n".to_vec());
+    m.put("notes\\draft.txt", b"inside backslash name\n".to_vec());
     m.dirs.insert("d".into());
     m
 }
